@@ -8,6 +8,7 @@
   argument, else the declared default evaluated in the empty context, else None.
 -/
 import NemoVerif.Lemmas.Bind
+import NemoVerif.Lemmas.BindHeap
 namespace NemoVerif.C08
 open NemoVerif NemoVerif.Bind
 
@@ -198,5 +199,147 @@ theorem inplace_private_partial (s : Heap.HSt) (u w : Nat) (x y : String) (v : V
 /-- non-vacuity: caller and callee variables with distinct objects -/
 example : Heap.addrOf 0 "l" [((0, "l"), 0), ((1, "l"), 1)] ≠ Heap.addrOf 1 "l" [((0, "l"), 0), ((1, "l"), 1)] := by
   simp [Heap.addrOf]
+
+/-! ## Reference semantics: defaults are fresh objects, locals are private under in-place mutation
+
+  `hexec` (Models/BindHeap.lean) is `exec` over a heap: contexts, `arguments` and events hold addresses,
+  `($x.append(..))` mutates the cell `$x` refers to, `create_flow_instance` / `_start_flow` (the very
+  functions of the value model) move addresses.  A declared default is evaluated per instance
+  (`allocDefaults`). -/
+
+/-- **Defaults are fresh, one call** (every heap, i.e. every earlier history; every signature; every
+    well-formed call): an OMITTED parameter — not among the `k` positionals, not named — is bound to its
+    declared default: the callee's entry context read in the heap of that moment shows
+    `params[i].dfltVal`, and a declared default is a NEW object (an address beyond every cell that existed
+    before the call: nothing any earlier instance did, or will do through its own variables, can reach it). -/
+theorem defaults_fresh_call (h : Heap) (params rets : List Param) (ua : Ctx) (k : Nat) (form : CallForm)
+    (flow : String) (n caller : Nat) (hwf : WellFormedCall params rets ua k) :
+    ∃ f0 f, createFlowInstance flow (allocDefaults h params).2 (allocDefaults (allocDefaults h params).1 rets).2
+          (startArgs ua form flow n caller) = .ok f0 ∧
+      startFlow false (startArgs ua form flow n caller) f0 = .ok f ∧
+      ∀ i (hi : i < params.length), k ≤ i → lookup (argKey params[i].name) ua = none →
+        lookup (.name params[i].name) (derefCtx (allocDefaults (allocDefaults h params).1 rets).1 f.context)
+          = some params[i].dfltVal ∧
+        (params[i].dflt.isSome → ∃ a, h.length ≤ a ∧ lookup (.name params[i].name) f.context = some (addr a)) :=
+  Bind.defaults_fresh_call h params rets ua k form flow n caller hwf
+
+/-- non-vacuity: `flow collect $item $bucket=[]` called as `collect("a")` (one positional, `$bucket` omitted) -/
+example : WellFormedCall [⟨"item", none⟩, ⟨"bucket", some (.lit (.list []))⟩] [] [(.pos 0, addr 0)] 1 ∧
+    lookup (argKey "bucket") [(.pos 0, addr 0)] = none := by
+  refine ⟨⟨by decide, by simp [lookup], by simp, by simp, ?_, ?_⟩, by simp [lookup, argKey, reservedNames]⟩
+  · intro i hi; have : i = 0 := by omega
+    subst this; simp [lookup]
+  · intro i hi
+    have : (Key.pos 0 = Key.pos i) = False := by
+      simp only [Key.pos.injEq, eq_iff_iff, iff_false]; omega
+    simp [lookup, this]
+
+/-- **Defaults are fresh, every call of every history** (induction over whole executions of `hexec`, from
+    ANY state — any heap, any instances, whatever was mutated before): every callee entry recorded during
+    the execution obeys the statement's rule `EntryOK`: if the call is well-formed for the callee's
+    signature, each omitted parameter shows its declared default in the entry context. -/
+theorem defaults_fresh (flows : List (String × HFlowDef)) (fuel : Nat) (s : HSt) (u : Nat) (body : List HStmt) :
+    ∀ e ∈ (hexec flows fuel s u body).1.entries, e ∈ s.entries ∨ EntryOK flows e :=
+  hexec_entriesOK flows fuel s u body
+
+/-- … in particular for every call of a whole program -/
+theorem defaults_fresh_program (flows : List (String × HFlowDef)) (fuel : Nat) (main : List HStmt) :
+    ∀ e ∈ (runMainH flows fuel main).1.entries, EntryOK flows e := by
+  intro e he
+  simp only [runMainH] at he
+  split at he
+  · simp at he
+  · rcases hexec_entriesOK flows fuel _ 0 main e he with h | h
+    · simp at h
+    · exact h
+
+/-- **Locals are private under in-place mutation** (frame theorem of `hexec`, induction over whole
+    executions).  `A` is any region of addresses closed for the running instance `u` (`Pre`: what `u`'s
+    variables and `arguments` refer to, what the globals refer to, everything not yet allocated).
+    Whatever `u` executes — in-place method calls, assignments, calls with everything the callees execute,
+    return-value capture — every other existing instance `w` keeps its context and `arguments`, and every
+    variable of `w` that refers to an object OUTSIDE the region (a value that was not passed across) shows
+    the same value afterwards. -/
+theorem locals_private_mut {A : Nat → Prop} (flows : List (String × HFlowDef)) (fuel : Nat) (s : HSt) (u : Nat)
+    (body : List HStmt) (hpre : Pre A s u) (w : Nat) (hw : w ≠ u) (hlt : w < s.st.next) :
+    findInst w (hexec flows fuel s u body).1.st.insts = findInst w s.st.insts ∧
+    ∀ y a, lookup y (s.st.ctxOf w) = some (addr a) → ¬ A a →
+      lookup y (derefCtx (hexec flows fuel s u body).1.heap ((hexec flows fuel s u body).1.st.ctxOf w))
+        = lookup y (derefCtx s.heap (s.st.ctxOf w)) := by
+  have r := hexec_frame flows fuel s u body hpre
+  have hfi := r.others w hw hlt
+  refine ⟨hfi, fun y a hy ha => ?_⟩
+  have hctx : (hexec flows fuel s u body).1.st.ctxOf w = s.st.ctxOf w := by simp only [St.ctxOf, hfi]
+  rw [hctx, lookup_derefCtx, lookup_derefCtx, hy]
+  simp only [Option.map_some, deref_addr, List.getD_eq_getElem?_getD, r.heap a ha]
+
+/-- non-vacuity of `Pre`: `main` (instance 0) holds the list in cell 1, a waiting instance 1 holds its own
+    list in cell 0; the region "everything but cell 0" is closed for instance 0 -/
+example : Pre (fun a => a ≠ 0)
+    { st := { insts := [(0, { flowId := "main", arguments := [], context := [(.name "v", addr 1)] }),
+                        (1, { flowId := "fa", arguments := [], context := [(.name "v", addr 0)] })], next := 2 },
+      heap := [.list [.int 1], .list [.int 2]] } 0 := by
+  refine ⟨?_, by decide, ?_, ⟨_, rfl, ?_, AllVals.nil _⟩, AllVals.nil _⟩
+  · intro x hx
+    simp [uids] at hx
+    rcases hx with h | h <;> simp [h]
+  · intro a ha; simp at ha; omega
+  · intro kv hkv
+    simp only [List.mem_singleton] at hkv
+    subst hkv
+    exact PA.addr (by decide)
+
+/-! ### passed containers: exact characterisation of the sharing the code has (open finding) -/
+
+/-- a bare variable evaluates to the object it refers to (no copy, heap untouched) — unless it holds a
+    dict, which `eval_expression` shallow-copies (`AttributeDict(val)`) -/
+theorem bare_variable_is_the_object (h : Heap) (g c : Ctx) (x : String) (hnd : isDict (deref h (evalVar g c x)) = false) :
+    evalH h g c (.var x) = (h, evalVar g c x) := by
+  simp [evalH, hnd]
+
+/-- **A passed object is shared** (every signature, every well-formed call, every heap): positional
+    argument `i` reaches the callee's parameter `i` as the SAME address the caller supplied — the callee's
+    variable and whatever the caller's expression referred to are one object. -/
+theorem passed_container_is_shared (h : Heap) (params rets : List Param) (ua : Ctx) (k : Nat) (form : CallForm)
+    (flow : String) (n caller : Nat) (hwf : WellFormedCall params rets ua k) :
+    ∃ f0 f, createFlowInstance flow (allocDefaults h params).2 (allocDefaults (allocDefaults h params).1 rets).2
+          (startArgs ua form flow n caller) = .ok f0 ∧
+      startFlow false (startArgs ua form flow n caller) f0 = .ok f ∧
+      ∀ i (hi : i < params.length), i < k →
+        lookup (.name params[i].name) f.context = some ((lookup (.pos i) ua).getD .none) := by
+  have hwf' := wellFormedCall_allocDefaults params rets ua k h (allocDefaults h params).1 hwf
+  obtain ⟨f0, f, h1, h2, h3, _⟩ := bind_spec_core flow _ _ _ k (wellFormed_of_call _ _ ua k form flow n caller hwf')
+  refine ⟨f0, f, h1, h2, fun i hi hik => ?_⟩
+  obtain ⟨hi', hname, _, _⟩ := allocDefaults_spec params h i hi
+  have := h3 i hi'
+  rw [hname, specVal_startArgs] at this
+  rw [this]
+  simp [specVal, hik]
+
+/-- **An in-place mutation is seen through exactly the aliases**: after the object at address `a` was
+    mutated, a variable holding address `b` shows the new content iff `b = a`; every other object is
+    unchanged. -/
+theorem inplace_seen_exactly_by_aliases (h : Heap) (a b : Nat) (cell' : Val) (ha : a < h.length) :
+    deref (h.set a cell') (addr b) = if b = a then cell' else deref h (addr b) := by
+  simp only [deref_addr, List.getD_eq_getElem?_getD]
+  by_cases hb : b = a
+  · subst hb; simp [ha]
+  · simp [hb, List.getElem?_set_ne (Ne.symm hb)]
+
+/-- Kernel-checked counterexample for the code as it is (open finding
+    `inplace-mutation-of-passed-container`) in the heap interpreter: instance 1's parameter `$l` and
+    instance 0's variable `$l` are one object (that is what passing `$l` produces —
+    `passed_container_is_shared`); instance 1 executes `($l.append(9))`; instance 0's `$l` shows `[1, 9]`.
+    (finite fact, by evaluation) -/
+theorem inplace_alias_as_is_counterexample_exec :
+    let s : HSt := { st := { insts := [(0, { flowId := "main", arguments := [], context := [(.name "l", addr 0)] }),
+                                       (1, { flowId := "fa", arguments := [(.name "l", addr 0)], context := [(.name "l", addr 0)] })], next := 2 },
+                     heap := [.list [.int 1]] }
+    let s' := (hexec [] 3 s 1 [.mut "l" [] (.append (.lit (.int 9))) "_"]).1
+    lookup (.name "l") (derefCtx s.heap (s.st.ctxOf 0)) = some (.list [.int 1]) ∧
+    lookup (.name "l") (derefCtx s'.heap (s'.st.ctxOf 0)) = some (.list [.int 1, .int 9]) := by
+  constructor <;>
+    simp [hexec, St.ctxOf, findInst, derefCtx, deref, addr, lookup, evalVar, has, globalKey, mutAt, mutTop, Meth.evalF,
+      Bind.evalF, alloc, assignCtx, HSt.setCtx, St.setCtx, replaceInst, Bind.set]
 
 end NemoVerif.C08
